@@ -109,6 +109,7 @@ func specRecLen(n uint32) uint32 { return (16 + n + 31) / 32 * 32 }
 
 //@ ghost tried int
 //@ ghost nopath bool
+//@ ghost fullname string
 //@ ghost touched bool
 //@ ghost refreshed bool
 //@ ghost ledger wide
@@ -586,7 +587,14 @@ func specMapped(m *mappedFile) bool {
 //@   at call cutLastDot#1: assert arg0 == fr.Function
 //@   at call Sprintf#1: assert ($nopath ==> path == "") && (path == "\"" ==> lastImport != "")
 //@   at call Sprintf#2: assert ($nopath ==> path == "") && (path == "\"" ==> lastImport != "")
-//@   modifies $nopath
+// The name is the prefix, a newline and the rendered frames joined by newlines; it
+// is returned whole when it fits, and otherwise cut so that it ends, at exactly
+// the limit, in the visible marker.
+//@   at call Join#1: assert arg1 == "\n"
+//@   at call Join#1: after ghost $fullname = prefix + "\n" + result
+//@   ensures len($fullname) <= maxNameLen ==> result == $fullname
+//@   ensures len($fullname) > maxNameLen ==> result == $fullname[:maxNameLen-len("\ntruncated\n")] + "\ntruncated\n" && len(result) == maxNameLen
+//@   modifies $nopath, $fullname
 
 //@ contract (*StackCounter).Inc
 //@   requires 0 <= c.depth && c.depth <= 1<<20
@@ -595,7 +603,7 @@ func specMapped(m *mappedFile) bool {
 //@   requires forall i int :: 0 <= i && i < len(c.stacks) && c.stacks[i].counter != nil ==> c.stacks[i].counter.file != nil
 //@   loop 1: invariant -1 <= rangeindex && rangeindex < len(c.stacks)
 //@   loop 1: decreases len(c.stacks)-rangeindex
-//@   modifies heap, $ledger, $lost, $refreshed, $touched, $nopath
+//@   modifies heap, $ledger, $lost, $refreshed, $touched, $nopath, $fullname
 
 // ---------------------------------------------------------------------------
 // C09: the week a counter file covers.
